@@ -873,6 +873,8 @@ class LogicalLinkController(object):
         if isinstance(socket, tco.LogicalDataLink):
             if dest is None:
                 raise err.Error(errno.EDESTADDRREQ)
+            if not isinstance(dest, int) or dest < 0 or dest > 63:
+                raise err.Error(errno.EFAULT)  # not a valid llcp address
             if not socket.is_bound:
                 self.bind(socket)
             # FIXME: set socket send miu when activated
